@@ -1,5 +1,6 @@
 """C16 — system entities can only be changed from a system context."""
 from . import c05_c16_flow as flow
+from . import universe
 
 MODULE = "StorageModel.Properties.C16"
 THEOREMS = ["system_needs_system_ctx", "system_needs_system_ctx_parent_registration",
@@ -209,4 +210,5 @@ def run(ctx, replay_cases=None):
     ]
     return flow.flow(ctx, "c16", MODULE, THEOREMS, MATCHERS, normalise=normalise, nontrivial=nontrivial,
                      describe=describe, rule=RULE, histogram=histogram, candidates=candidates,
-                     replay_cases=replay_cases, workers=4)
+                     replay_cases=replay_cases, workers=4,
+                     post_cases=lambda c: universe.universe_stream(c, ["C16"]))
